@@ -36,8 +36,8 @@ const ALLOWED: &[u16] = &[200, 206, 304, 400, 405, 412, 413, 416];
 
 pub fn check(c: &Case, acc: &mut Acc) -> Check {
     let opts = DrainOpts {
-        max_bytes: if c.ent.len > 1 << 20 { 100_000 } else { 1 << 21 },
-        max_frames: if c.ent.len > 1 << 20 { 1024 } else { 1 << 20 },
+        max_bytes: if light() { 6000 } else if c.ent.len > 1 << 20 { 100_000 } else { 1 << 21 },
+        max_frames: if light() { 64 } else if c.ent.len > 1 << 20 { 1024 } else { 1 << 20 },
         extra_polls: 0,
         ..Default::default()
     };
